@@ -98,10 +98,13 @@ class SignalBuffer:
             # Index of buffered range
             slb = self.get_samples_lb()
             sub = self.get_samples_ub()
-            lpadding = max(slb-ilb, 0)
-            elb = max(slb, ilb)
-            rpadding = max(iub-sub, 0)
-            eub = min(sub, iub)
+            # Clip the request to the buffered range. A request that lies
+            # (partly or entirely) outside the buffered range is padded by
+            # exactly the number of samples that are missing.
+            lpadding = max(min(slb, iub)-ilb, 0)
+            elb = min(max(slb, ilb), sub)
+            rpadding = max(iub-max(sub, ilb), 0)
+            eub = max(min(sub, iub), elb)
             data = self.get_range_samples(elb, eub)
 
             padding = (lpadding, rpadding)
